@@ -467,6 +467,20 @@ func (o *C11) maxDiscount(w *World, addrs ...string) *big.Rat {
 	return o.maxDiscountWith(w, w.ReadState().OracleHolders(), true, addrs...)
 }
 
+// isHexish: the text is an EVM-style address in some spelling (40 hex digits, optionally prefixed 0x / 0X).
+func isHexish(a string) bool {
+	b := strings.TrimPrefix(strings.TrimPrefix(a, "0x"), "0X")
+	if len(b) != 40 {
+		return false
+	}
+	for _, c := range b {
+		if !(c >= '0' && c <= '9' || c >= 'a' && c <= 'f' || c >= 'A' && c <= 'F') {
+			return false
+		}
+	}
+	return true
+}
+
 func (o *C11) maxDiscountWith(w *World, holders *oracletypes.Holders, checkQuery bool, addrs ...string) *big.Rat {
 	best := new(big.Rat)
 	one := pow10(18)
@@ -668,6 +682,18 @@ func (o *C11) crossChainCommission(w *World, srcChain string, nonce uint64, e *m
 		cHi = new(big.Int).Add(cLo, new(big.Int).Sub(m, big.NewInt(1)))
 	}
 	slack := new(big.Int).Add(new(big.Int).Quo(total, pow10(18)), big.NewInt(2))
+	// an address that is not spelled 0x + 40 digits (deposit commands admit "0X..." and bare digits) need not be
+	// recognised as a holder: the statement bounds the commission by the configured rate from above and by the
+	// entitled discount from below, it does not oblige the hub to find the holder behind every spelling
+	canonical := func(a string) bool { return len(a) == 42 && strings.HasPrefix(a, "0x") || !isHexish(a) }
+	if !canonical(e.Sender) || !canonical(e.ExternalReceiver) {
+		w.St.Probe("holder-address-in-another-spelling")
+		full := ratFloor(new(big.Rat).Mul(rate, new(big.Rat).SetInt(total)))
+		if cLo.Cmp(new(big.Int).Add(full, slack)) > 0 || cHi.Cmp(new(big.Int).Sub(exp, slack)) < 0 {
+			w.Fail("C11", "commission", "cross-chain", fmt.Sprintf("%s -> %s transfer of %s %s (hub units) was charged a commission in [%s,%s]; the destination token's rate %s allows at most %s, the holder discount %s at least %s", srcChain, dest, total, denom, cLo, cHi, rate.FloatString(6), full, disc.FloatString(2), exp))
+		}
+		return
+	}
 	if cLo.Cmp(new(big.Int).Add(exp, slack)) > 0 || cHi.Cmp(new(big.Int).Sub(exp, slack)) < 0 {
 		w.Fail("C11", "commission", "cross-chain", fmt.Sprintf("%s -> %s transfer of %s %s (hub units) was charged a commission in [%s,%s]; the destination token's rate %s with holder discount %s implies %s", srcChain, dest, total, denom, cLo, cHi, rate.FloatString(6), disc.FloatString(2), exp))
 	}
